@@ -78,6 +78,16 @@ CHECKS = {
         "covers": ["C09/bid-succeeds", "C09/cancel-succeeds", "C09/accept-succeeds", "C09/register-buy-succeeds"],
         "assumptions": A_COMMON + A_STORE + A_BANK + ["A-COINS1: a stored price string is a single canonical coin (written from Coin.String()) or does not parse"],
     },
+    "C14": {
+        "groups": [{"pkgs": "./x/storage/keeper", "fns": ["VH_C14_attest", "VH_C14_report"], "opts": {"j": 2, "w": 7}}],
+        "covers": ["C14/attest-acts", "C14/attest-recorded-below-quorum", "C14/attest-by-unlisted-signer", "C14/report-acts", "C14/report-recorded-below-quorum", "C14/report-without-effect"],
+        "bounds": {"step": "one attest / report signature from an arbitrary well-formed state (any form content, flags, signer, minimum); multisets and orders of signatures of any length follow by induction on the rule 'a flag is set only on entries naming the signer'",
+                   "form entries": 3, "provers listed on the file": 2},
+        "assumptions": A_COMMON + A_STORE + A_BANK + ["WF: forms, files and proof records carry account strings in their Prover / Owner fields (written for registered providers and PostFile creators)",
+                       "A-KEYPARSE: a store key whose layout parts are addresses, hex and decimal renderings parses in exactly one way (engine binds the record's key fields to the key's parts)",
+                       "WF: a form names pairwise distinct providers (what form creation establishes; the form-creation harness is thorough-tier)"],
+        "outside": ["forms larger than 3 entries", "the provider population and shuffle behind form creation in the quick tier"],
+    },
     "C15": {
         "groups": [{"pkgs": "./x/storage/keeper", "fns": ["VH_C15_*"]}],
         "covers": ["C15/init-succeeds", "C15/shutdown-succeeds"],
